@@ -3,7 +3,7 @@
   never changes, a started notice is never reset, an unbonded sequencer is never bonded again.
 -/
 import DymVerif.Lemmas.CoreRolesP
-namespace DymVerif.Core
+namespace DymVerif.Core.Roles
 
 def Mono (s s' : St) : Prop :=
   ∀ a q, getSeq s a = some q → ∃ q', getSeq s' a = some q' ∧ q'.rollapp = q.rollapp ∧
@@ -434,4 +434,4 @@ theorem runFrom_roles_mono {s : St} (h : Roles s) (ops : List Op) : Roles (runFr
   · exact ⟨h, Mono.refl s⟩
   · intro b o hb; exact ⟨step_roles hb.1, hb.2.trans (step_mono hb.1)⟩
 
-end DymVerif.Core
+end DymVerif.Core.Roles
